@@ -311,6 +311,9 @@ var reFuncSpec = regexp.MustCompile(`^(\(\*?[^)]+\)\.)?([^\s(]+)\s*(\(([^)]*)\))
 // "(storage.MintDB).SaveProofs(ps)" into the key used by ssa: full package
 // paths, e.g. "(*github.com/elnosh/gonuts/mint.Mint).Swap".
 func (cs *ContractSet) normalizeFuncKey(spec, pkgPath string) (string, []string, error) {
+	if strings.HasPrefix(strings.TrimSpace(spec), "builtin.") {
+		return strings.TrimSpace(spec), nil, nil
+	}
 	m := reFuncSpec.FindStringSubmatch(strings.TrimSpace(spec))
 	if m == nil {
 		return "", nil, fmt.Errorf("cannot parse function spec %q", spec)
